@@ -8,7 +8,7 @@ use serde_json::{json, Value};
 use crate::engine::{catch, h64, par_range, run_generated, Ctx, Stats};
 use crate::oracle::page::{bit_pos, bpc, data_len, new_bytes, total_len, REAL_SIZES};
 
-pub const RULE: &str = "sizes: every width x height in 0..=32 x 0..=34 (quick) / 0..=64 x 0..=48 (thorough), the 11 real sizes, 1x255, 255x1, 300x9, 1000x64 pages taller than 256 rows (2x257, 3x300, 1x1030) and dimensions within 10 of u32::MAX (against small buffers only); for each size: new-page bytes for several ids (all 256 ids on selected sizes) against the closed-form layout, every pixel set alone on a blank page must flip exactly bit y%8 of byte 4+x*ceil(h/8)+y/8 (bijection pixels<->bits), from_bytes with candidate lengths {0, total-16, total-1, total, total+1, total+16, unpadded} must succeed exactly for the padded length, expose exactly the given bytes and equal the page that produced them (also after generated histories of pixel edits and whole-page fills on pages that came from new, from borrowed and from owned bytes). Non-trivial = height not a multiple of 8, or data already on a 16-byte boundary, or >= 2 bytes per column; distinct by size (and content hash for generated cases)";
+pub const RULE: &str = "sizes: every width x height in 0..=32 x 0..=34 (quick) / 0..=64 x 0..=48 (thorough), the 11 real sizes, 1x255, 255x1, 300x9, 1000x64 pages taller than 256 rows (2x257, 3x300, 1x1030) and dimensions within 10 of u32::MAX (against small buffers only); for each size: new-page bytes for several ids (all 256 ids on selected sizes) against the closed-form layout, every pixel set alone on a blank page must flip exactly bit y%8 of byte 4+x*ceil(h/8)+y/8 (bijection pixels<->bits), from_bytes with candidate lengths {0, total-16, total-1, total, total+1, total+16, unpadded} must succeed exactly for the padded length, expose exactly the given bytes and equal the page that produced them (also after generated histories of pixel edits, whole-page fills and rejected out-of-bounds writes on pages that came from new, from borrowed and from owned bytes). Non-trivial = height not a multiple of 8, or data already on a 16-byte boundary, or >= 2 bytes per column; distinct by size (and content hash for generated cases)";
 pub const ASSUMPTIONS: &[&str] = &["the closed-form layout in oracle/page.rs is a correct reading of the C07 statement"];
 
 #[derive(Serialize, Deserialize, Debug, Clone, PartialEq, Eq, Hash)]
@@ -224,6 +224,26 @@ pub struct EditedCase {
     /// 0 = from_bytes over borrowed generated bytes, 1 = Page::new, 2 = from_bytes over an owned vector
     #[serde(default)]
     pub origin: u8,
+    /// rejected writes: positions in the edit sequence (selectors) at which an out-of-bounds set_pixel is made and its
+    /// panic caught; the page is used on afterwards
+    #[serde(default)]
+    pub probes: Vec<u16>,
+}
+
+/// An out-of-bounds write panics (C06); whatever page is left behind is still a page, so its bytes must still be the
+/// layout the history has built (C07 speaks about every page, however it was reached).
+fn probe_step(page: &mut Page, model: &[u8], w: u32, h: u32, k: usize, st: &mut Stats) -> Result<(), String> {
+    let (x, y) = if k % 2 == 0 { (w, 0) } else { (0, h) };
+    let _ = catch(|| page.set_pixel(x, y, k % 3 == 0));
+    st.eval();
+    if page.as_bytes() != model {
+        return Err(format!(
+            "after a rejected (out-of-bounds, panicking) set_pixel({x},{y}) the {w}x{h} page's bytes are no longer the layout its history built: {} bytes instead of {}",
+            page.as_bytes().len(),
+            model.len()
+        ));
+    }
+    Ok(())
 }
 
 /// set_all_pixels as one edit of the generated history: header and padding stay, every real pixel bit takes the
@@ -280,6 +300,9 @@ pub fn check_edited(c: &EditedCase, st: &mut Stats) -> Result<(), String> {
             for fv in fill_at(k) {
                 fill_step(&mut page, &mut model, w, h, fv, st)?;
             }
+            if c.probes.iter().any(|p| crate::engine::pick_idx(*p, c.sets.len() + 1) == k) {
+                probe_step(&mut page, &model, w, h, k, st)?;
+            }
             let x = crate::engine::pick_idx(sx, w as usize) as u32;
             let y = crate::engine::pick_idx(sy, h as usize) as u32;
             let (bi, bit) = bit_pos(x, y, h);
@@ -306,6 +329,9 @@ pub fn check_edited(c: &EditedCase, st: &mut Stats) -> Result<(), String> {
         for fv in fill_at(c.sets.len()) {
             fill_step(&mut page, &mut model, w, h, fv, st)?;
         }
+    }
+    if c.probes.iter().any(|p| crate::engine::pick_idx(*p, c.sets.len() + 1) == c.sets.len()) {
+        probe_step(&mut page, &model, w, h, c.sets.len(), st)?;
     }
     let rebuilt = catch(|| Page::from_bytes(w, h, page.as_bytes().to_vec()))
         .map_err(|p| format!("from_bytes panicked on a page's own bytes: {p}"))?
@@ -570,8 +596,9 @@ pub fn run(ctx: &Ctx) {
                 proptest::collection::vec((any::<u16>(), any::<u16>(), any::<bool>()), 0..30),
                 proptest::collection::vec((any::<u16>(), any::<bool>()), 0..3),
                 0u8..3,
+                proptest::collection::vec(any::<u16>(), 0..2),
             )
-                .prop_map(|((w, h), seed, sets, fills, origin)| EditedCase { w, h, seed, sets, fills, origin })
+                .prop_map(|((w, h), seed, sets, fills, origin, probes)| EditedCase { w, h, seed, sets, fills, origin, probes })
         },
         |c, st| check_edited(c, st),
     );
